@@ -22,6 +22,7 @@ import json
 import numpy as np
 
 from .data import Data
+from .data_association_enum import DataAssociationEnum
 from .primitive_type_enum import PrimitiveTypeEnum
 
 
@@ -71,9 +72,45 @@ class TextData(Data):
                 f"Input 'values' for {self} must be of type {np.ndarray}  str or None."
             )
 
+        if isinstance(values, np.ndarray):
+            values = self.format_length(values)
+
         self._values = values
 
         self.workspace.update_attribute(self, "values")
+
+    def format_length(self, values: np.ndarray) -> np.ndarray:
+        """
+        Text arrays on vertices, cells or faces have one entry per element:
+        shorter arrays are padded with the no-data value, longer ones refused.
+
+        :param values: the values to check.
+        :return: the values with the right length.
+        """
+        if (
+            self.association
+            not in (
+                DataAssociationEnum.VERTEX,
+                DataAssociationEnum.CELL,
+                DataAssociationEnum.FACE,
+            )
+            or self.n_values is None
+            or values.ndim != 1
+        ):
+            return values
+
+        if len(values) < self.n_values:
+            full_vector = np.full(self.n_values, self.nan_value, dtype=object)
+            full_vector[: len(values)] = values
+            return full_vector.astype(str)
+
+        if len(values) > self.n_values:
+            raise ValueError(
+                f"Input 'values' of shape({self.n_values},) expected. "
+                f"Array of shape{values.shape} provided.)"
+            )
+
+        return values
 
 
 class CommentsData(Data):
